@@ -323,12 +323,16 @@ func (t FunctionBlock) serializeTo(writer io.StringWriter) {
 // by calling the provided `write` callback.
 func serializeTo(nodes []Token, writer io.StringWriter) {
 	var previousType string
+	var previousIsU bool
 	for _, node := range nodes {
 		serializationType := node.Kind().String()
 		if literal, ok := node.(Literal); ok {
 			serializationType = literal.Value
 		}
 		if badPairs[[2]string{previousType, serializationType}] {
+			writer.WriteString("/**/")
+		} else if previousIsU && serializationType == "+" {
+			// "u+<hex or ?>" would be read back as an unicode-range token
 			writer.WriteString("/**/")
 		} else if previousType == "\\" {
 			whitespace, ok := node.(Whitespace)
@@ -339,6 +343,8 @@ func serializeTo(nodes []Token, writer io.StringWriter) {
 		}
 		node.serializeTo(writer)
 		previousType = serializationType
+		ident, isIdent := node.(Ident)
+		previousIsU = isIdent && (ident.Value == "u" || ident.Value == "U")
 	}
 }
 
